@@ -40,6 +40,13 @@ CLAIMED = {
  'C06': ('exhaustive enumeration of all string pairs up to length 4 over a 4-symbol alphabet + proptest-generated realistic sub-hunks; cell classes read by tag; edit-validity / pairing oracle',
          'Exploration with an exhaustive small scope: every ordered pair of strings of length <= 4 over {a,b,blank,;} (116 281 pairs at the default distance, a third of them at distances 0 and 1) plus thousands of random sub-hunks must satisfy: un-emphasised text equal on both lines of a pair, no emphasis on unpaired/unchanged/identical lines, single contiguous stretch for single-run edits, balanced pairing, i-th-with-i-th at distance 1, whitespace-only differences at distance 0.',
          'Trusted: terminal model; paired <=> painted with emph/non-emph styles (tagged family); whitespace-error cells count as emphasised.', '3/C06'),
+
+ 'C08': ('metamorphic: proptest-generated diffs rendered plain and coloured by an independent colouriser must give identical bytes; moved-line renditions compared cell by cell via the terminal model',
+         'Exploration: for generated diffs and all rendering modes, colouring the input with git\'s default palette must not change a single output byte (raw-styled commit lines excepted, which must keep their input bytes); changed lines carrying another rendition must be painted with exactly that rendition (or the map-styles target) on every character.',
+         'Trusted: colouriser reproduces git\'s sequences; terminal model; reference style parser; no cancel codes inside moved lines.', '3/C08'),
+ 'C09': ('proptest-generated diff/grep/blame streams (plain, coloured, moved-line renditions) under narrow/truncating/wrapping/hyperlink option sets; terminal-model line-state oracle',
+         'Exploration: at every newline of the output the rendition must be the default one, no OSC 8 hyperlink open, no escape sequence cut, and no control function other than SGR/EL/OSC 8 present.',
+         'Trusted: terminal model; input sequences balanced by construction.', '3/C09'),
 }
 hook_commits = subprocess.check_output(['git','-C','/repo','log','--format=%H','--grep','^verif hook:'],text=True).split()
 checks = []
